@@ -1,346 +1,237 @@
-import NmlVerif.Proofs.FixExternal
+import NmlVerif.Proofs.FixExternalCells
 /-!
-# C17 — resolving external morphology/biophysics references embeds independent copies
+# C17 — resolving external morphology/biophysics references embeds independent copies  (tree model)
 
-Model: `NmlVerif.FixExternal` (`Model/FixExternal.lean`) of `neuroml.utils.fix_external_morphs_biophys_in_cell`
-(repaired tree: `fixes/C17-deepcopy-drags-parent-document.patch`), tied to the code by the correspondence check
-`harness/props/c17.py` (generated documents and include files, real function vs `Drivers/C17.lean`, object
-identities compared through first-visit numbering).
+Model: `NmlVerif.FixExternal.fixExternal` (`Model/FixExternal.lean`) of `neuroml.utils.fix_external_morphs_biophys_in_cell`
+on the tree with every accepted repair: both loops run over `all_cells = doc.cells + doc.cell2_ca_poolses`.  The model
+is `fixExternalCells` (the function that visits one list; every theorem about it is in `Proofs/FixExternalCells.lean`,
+names `cellsOnly_…`) applied to the document with its two cell lists merged (`Doc.merge`), the result taken apart again
+(`Doc.unmerge`).  The theorems below are about ALL cells, `doc.cells ++ doc.cells2`.
 
-Every theorem is about *all* documents, file systems and counter values.  `doc.Below n` says that the
-document's objects exist when the call starts (identities `< n`, the allocation counter), `doc.ids.Nodup` that
-the document is a tree (no object is reachable twice).
+`doc.Below n`: the document's objects exist when the call starts (identities `< n`); `doc.ids.Nodup`: the document is
+a tree.  The object-graph versions are in `Props/C17Graph.lean`.
 -/
 namespace NmlVerif.FixExternal
 open List
 
-/-- what the property demands of one (reference attribute, subelement) pair of a cell, `s` before and `s'` after:
-    a reference `a` without element gets the attribute cleared and an element with id `a` whose structure is
-    that of a visible definition of `a`, all of whose objects were allocated during the call (`n ≤ i`: they are
-    not objects of the input, in particular not the referenced element) and whose back reference, if any, is
-    the cell; any other pair is exactly as it was (same objects, attribute kept). -/
-def Resolved (Def : String → Elem → Prop) (n : Nat) (cellOid : Nat) (s s' : Slot) : Prop :=
-  (∀ a, s.attr = some a → s.elem = none →
-    s'.attr = none ∧ ∃ e', s'.elem = some e' ∧ e'.nmlId = a ∧ Def a e'.shape ∧ (∀ i ∈ e'.ids, n ≤ i) ∧
-      (∀ p, e'.obj.parent = some p → p = cellOid)) ∧
-  ((s.attr = none ∨ s.elem ≠ none) → s' = s)
+/-! ### merging and taking apart -/
 
-theorem resolved_of_slotPost {Def : String → Elem → Prop} {d : Dict} {n lo cid : Nat} {s s' : Slot}
-    (hd : DictInv Def lo d) (hn : n ≤ lo) (h : SlotPost d cid lo s s') : Resolved Def n cid s s' := by
-  obtain ⟨attr, elem⟩ := s
-  cases attr with
-  | none => cases elem <;> (simp only [SlotPost] at h; subst h; simp [Resolved])
-  | some a =>
-    cases elem with
-    | some e => simp only [SlotPost] at h; subst h; simp [Resolved]
-    | none =>
-      simp only [SlotPost] at h
-      obtain ⟨e, e', hg, rfl, hid, hsh, hfresh, hpar⟩ := h
-      have ⟨i1, _, i3⟩ := hd a e hg
-      refine ⟨?_, by simp⟩
-      intro a' ha' _
-      simp only [Option.some.injEq] at ha'
-      subst ha'
-      refine ⟨rfl, e', rfl, hid.trans i1, ?_, fun i hi => by have := hfresh i hi; omega, ?_⟩
-      · have : e'.shape = e.shape := by simp [Elem.shape, hid, hsh]
-        rw [this]; exact i3
-      · intro p hp
-        rw [hpar] at hp
-        cases hq : e.obj.parent with
-        | none => simp [hq] at hp
-        | some q => simp [hq] at hp; exact hp.symm
+theorem Doc.merge_ids (d : Doc) : d.merge.ids = d.ids := by
+  simp [Doc.ids, Doc.merge, List.flatMap_append]
 
-/-- **Embedding.** A successful call (`overwrite=True`) keeps the cells in place and resolves each of them:
-    every reference to a morphology / biophysical-properties element becomes an embedded, structurally
-    equal, freshly allocated copy of a definition in the document or a directly included file, with the
-    reference attribute cleared; pairs that had an element are untouched. -/
+theorem Doc.unmerge_ids (k : Nat) (d : Doc) : (d.unmerge k).ids = d.ids := by
+  simp only [Doc.ids, Doc.unmerge, List.flatMap_append]
+  have : d.cells.flatMap Cell.ids = (d.cells.take k).flatMap Cell.ids ++ (d.cells.drop k).flatMap Cell.ids := by
+    rw [← List.flatMap_append, List.take_append_drop]
+  rw [this]
+  simp [List.append_assoc]
+
+theorem Doc.unmerge_merge (d : Doc) : d.merge.unmerge d.cells.length = d := by
+  cases d
+  simp [Doc.merge, Doc.unmerge]
+
+theorem Doc.unmerge_all (k : Nat) (d : Doc) (h2 : d.cells2 = []) :
+    (d.unmerge k).cells ++ (d.unmerge k).cells2 = d.cells := by
+  simp [Doc.unmerge, h2]
+
+theorem Doc.merge_below {d : Doc} {n : Nat} (h : d.Below n) : d.merge.Below n := by
+  unfold Doc.Below at *
+  rw [Doc.merge_ids]; exact h
+
+theorem Doc.unmerge_shape (k : Nat) (d : Doc) : (d.unmerge k).shape = d.shape.unmerge k := by
+  simp [Doc.shape, Doc.unmerge, List.map_take, List.map_drop]
+
+theorem fixExternal_ret_ok {doc : Doc} {ow : Bool} {files : Files} {n : Nat} {doc' : Doc}
+    (h : (fixExternal doc ow files n).ret = .ok doc') :
+    ∃ dm, (fixExternalCells doc.merge ow files n).ret = .ok dm ∧ doc' = dm.unmerge doc.cells.length := by
+  simp only [fixExternal] at h
+  cases hr : (fixExternalCells doc.merge ow files n).ret with
+  | error e => simp [hr] at h
+  | ok dm => simp only [hr, Except.ok.injEq] at h; exact ⟨dm, rfl, h.symm⟩
+
+theorem fixExternal_ret_error {doc : Doc} {ow : Bool} {files : Files} {n : Nat} {e : Err} :
+    (fixExternal doc ow files n).ret = .error e ↔ (fixExternalCells doc.merge ow files n).ret = .error e := by
+  simp only [fixExternal]
+  cases (fixExternalCells doc.merge ow files n).ret <;> simp
+
+theorem fixExternal_ret_of_ok {doc : Doc} {ow : Bool} {files : Files} {n : Nat} {dm : Doc}
+    (h : (fixExternalCells doc.merge ow files n).ret = .ok dm) :
+    (fixExternal doc ow files n).ret = .ok (dm.unmerge doc.cells.length) := by
+  simp only [fixExternal, h]
+
+theorem fixExternal_input (doc : Doc) (ow : Bool) (files : Files) (n : Nat) :
+    (fixExternal doc ow files n).input = (fixExternalCells doc.merge ow files n).input.unmerge doc.cells.length := rfl
+theorem fixExternal_next (doc : Doc) (ow : Bool) (files : Files) (n : Nat) :
+    (fixExternal doc ow files n).next = (fixExternalCells doc.merge ow files n).next := rfl
+theorem fixExternal_writes (doc : Doc) (ow : Bool) (files : Files) (n : Nat) :
+    (fixExternal doc ow files n).writes = (fixExternalCells doc.merge ow files n).writes := rfl
+
+/-- what a successful in-place call returns, in terms of the merged run -/
+theorem merged_result {doc : Doc} {files : Files} {n : Nat} {doc' : Doc}
+    (h : (fixExternal doc true files n).ret = .ok doc') :
+    ∃ dm, (fixExternalCells doc.merge true files n).ret = .ok dm ∧ doc' = dm.unmerge doc.cells.length ∧
+      dm.cells2 = [] ∧ doc'.cells ++ doc'.cells2 = dm.cells := by
+  obtain ⟨dm, h1, h2⟩ := fixExternal_ret_ok h
+  have h3 : dm.cells2 = [] := (cellsOnly_rest_untouched doc.merge files n dm h1).2.2.2.2.2.1
+  exact ⟨dm, h1, h2, h3, by rw [h2]; exact Doc.unmerge_all _ _ h3⟩
+
+/-! ### the property -/
+
+/-- **Embedding.** A successful call (`overwrite=True`) keeps both cell lists in place and resolves every cell of
+    `doc.cells` AND of `doc.cell2_ca_poolses`: every reference to a morphology / biophysical-properties element becomes
+    an embedded, structurally equal, freshly allocated copy of a definition in the document or a directly included
+    file, with the reference attribute cleared; pairs that had an element are untouched. -/
 theorem c17_resolved (doc : Doc) (files : Files) (n : Nat) (hb : doc.Below n) (doc' : Doc)
     (h : (fixExternal doc true files n).ret = .ok doc') :
-    doc'.cells.length = doc.cells.length ∧
-    ∀ p ∈ doc.cells.zip doc'.cells,
+    doc'.cells.length = doc.cells.length ∧ doc'.cells2.length = doc.cells2.length ∧
+    ∀ p ∈ (doc.cells ++ doc.cells2).zip (doc'.cells ++ doc'.cells2),
       p.2.oid = p.1.oid ∧ p.2.parent = p.1.parent ∧ p.2.payload = p.1.payload ∧
       Resolved (DefinesM doc files) n p.1.oid p.1.m p.2.m ∧
       Resolved (DefinesB doc files) n p.1.oid p.1.b p.2.b := by
-  rw [fixExternal_true] at h
-  cases ht : lookupTables doc files n with
-  | error e => rw [fixInPlace_of_error ht] at h; cases h
-  | ok r =>
-    obtain ⟨em, eb, n2⟩ := r
-    have ⟨s1, s2, s3, _, _⟩ := lookupTables_spec ht hb
-    rw [fixInPlace_of_ok ht] at h
-    cases he : (fixCells em eb doc.cells n2).err with
-    | some e => simp [he, retOf] at h
-    | none =>
-      simp only [he, retOf, Except.ok.injEq] at h
-      subst h
-      refine ⟨fixCells_length em eb doc.cells n2, fun p hp => ?_⟩
-      have ⟨p1, p2, p3, p4, p5⟩ := fixCells_post em eb doc.cells n2 he p hp
-      exact ⟨p1, p2, p3, resolved_of_slotPost s2 s1 p4, resolved_of_slotPost s3 s1 p5⟩
+  obtain ⟨dm, h1, h2, h3, h4⟩ := merged_result h
+  have ⟨hl, hp⟩ := cellsOnly_resolved doc.merge files n (Doc.merge_below hb) dm h1
+  have hl' : dm.cells.length = doc.cells.length + doc.cells2.length := by simpa [Doc.merge] using hl
+  refine ⟨by rw [h2]; simp [Doc.unmerge]; omega, by rw [h2]; simp [Doc.unmerge, h3]; omega, ?_⟩
+  rw [h4]
+  exact hp
 
-/-- **Nothing else changes.** Apart from the cell list the returned document is the input document. -/
+/-- **Nothing else changes.** Apart from the two cell lists the returned document is the input document. -/
 theorem c17_rest_untouched (doc : Doc) (files : Files) (n : Nat) (doc' : Doc)
     (h : (fixExternal doc true files n).ret = .ok doc') :
     doc'.oid = doc.oid ∧ doc'.payload = doc.payload ∧ doc'.includes = doc.includes ∧ doc'.morphs = doc.morphs ∧
-      doc'.bios = doc.bios ∧ doc'.cells2 = doc.cells2 ∧ doc'.other = doc.other := by
-  rw [fixExternal_true] at h
-  cases ht : lookupTables doc files n with
-  | error e => rw [fixInPlace_of_error ht] at h; cases h
-  | ok r =>
-    obtain ⟨em, eb, n2⟩ := r
-    rw [fixInPlace_of_ok ht] at h
-    cases he : (fixCells em eb doc.cells n2).err with
-    | some e => simp [he, retOf] at h
-    | none =>
-      simp only [he, retOf, Except.ok.injEq] at h
-      subst h
-      exact ⟨rfl, rfl, rfl, rfl, rfl, rfl, rfl⟩
+      doc'.bios = doc.bios ∧ doc'.other = doc.other := by
+  obtain ⟨dm, h1, h2, _, _⟩ := merged_result h
+  have ⟨a1, a2, a3, a4, a5, _, a7⟩ := cellsOnly_rest_untouched doc.merge files n dm h1
+  subst h2
+  exact ⟨a1, a2, a3, a4, a5, a7⟩
 
-/-- **Cells that already embed the element are left as they are** (same objects; the reference attribute, if
-    one is set as well, is kept — this is what the code does). -/
+/-- **Cells that already embed the element are left as they are** (same objects; a reference attribute that is set as
+    well is kept — this is what the code does). -/
 theorem c17_embedded_untouched (doc : Doc) (files : Files) (n : Nat) (hb : doc.Below n) (doc' : Doc)
     (h : (fixExternal doc true files n).ret = .ok doc') :
-    ∀ p ∈ doc.cells.zip doc'.cells,
+    ∀ p ∈ (doc.cells ++ doc.cells2).zip (doc'.cells ++ doc'.cells2),
       (p.1.m.elem ≠ none → p.2.m = p.1.m) ∧ (p.1.b.elem ≠ none → p.2.b = p.1.b) := by
   intro p hp
-  have ⟨_, _, _, r1, r2⟩ := (c17_resolved doc files n hb doc' h).2 p hp
+  have ⟨_, _, _, r1, r2⟩ := (c17_resolved doc files n hb doc' h).2.2 p hp
   exact ⟨fun hne => r1.2 (Or.inr hne), fun hne => r2.2 (Or.inr hne)⟩
 
-/-- **Who wins on colliding ids.** If the document itself defines the referenced id, the embedded copy is a copy
-    of the document's *last* definition of it, whatever the included files define. -/
+/-- **Who wins on colliding ids.** If the document itself defines the referenced id, the embedded copy is a copy of the
+    document's *last* definition of it, whatever the included files define. -/
 theorem c17_local_definition_wins (doc : Doc) (files : Files) (n : Nat) (doc' : Doc)
     (h : (fixExternal doc true files n).ret = .ok doc') :
-    ∀ p ∈ doc.cells.zip doc'.cells,
+    ∀ p ∈ (doc.cells ++ doc.cells2).zip (doc'.cells ++ doc'.cells2),
       (∀ a e0, p.1.m.attr = some a → p.1.m.elem = none → lastDef doc.morphs a = some e0 →
         ∃ e', p.2.m.elem = some e' ∧ e'.shape = e0.shape) ∧
       (∀ a e0, p.1.b.attr = some a → p.1.b.elem = none → lastDef doc.bios a = some e0 →
         ∃ e', p.2.b.elem = some e' ∧ e'.shape = e0.shape) := by
-  rw [fixExternal_true] at h
-  cases ht : lookupTables doc files n with
-  | error e => rw [fixInPlace_of_error ht] at h; cases h
-  | ok r =>
-    obtain ⟨em, eb, n2⟩ := r
-    rw [fixInPlace_of_ok ht] at h
-    cases he : (fixCells em eb doc.cells n2).err with
-    | some e => simp [he, retOf] at h
-    | none =>
-      simp only [he, retOf, Except.ok.injEq] at h
-      subst h
-      intro p hp
-      have hc : p.1 ∈ doc.cells := (List.of_mem_zip hp).1
-      have ⟨_, _, _, p4, p5⟩ := fixCells_post em eb doc.cells n2 he p hp
-      constructor
-      · intro a e0 ha hel hl
-        have hw := (lookupTables_local_wins ht a (mem_referencedIds hc (Or.inl (by simp [Slot.refs, ha, hel])))).1 e0 hl
-        simp only [SlotPost, ha, hel] at p4
-        obtain ⟨e, e', hg, hs, hid, hsh, _⟩ := p4
-        rw [hw] at hg; cases hg
-        exact ⟨e', by rw [hs], by simp [Elem.shape, hid, hsh]⟩
-      · intro a e0 ha hel hl
-        have hw := (lookupTables_local_wins ht a (mem_referencedIds hc (Or.inr (by simp [Slot.refs, ha, hel])))).2 e0 hl
-        simp only [SlotPost, ha, hel] at p5
-        obtain ⟨e, e', hg, hs, hid, hsh, _⟩ := p5
-        rw [hw] at hg; cases hg
-        exact ⟨e', by rw [hs], by simp [Elem.shape, hid, hsh]⟩
+  obtain ⟨dm, h1, _, _, h4⟩ := merged_result h
+  rw [h4]
+  exact cellsOnly_local_definition_wins doc.merge files n dm h1
 
-/-- **Independence.** If the input document is a tree, so is the document after the call (also after a call
-    that raised): no object is reachable twice, so no embedded copy shares an object with another cell's copy,
-    with the element it was copied from, or with anything else; and every object is an object of the input or
-    was allocated during the call. -/
+/-- **Independence.** If the input document is a tree, so is the document after the call (also after a call that
+    raised): no object is reachable twice, so no embedded copy shares an object with another cell's copy — of either
+    list —, with the element it was copied from, or with anything else; and every object is an object of the input or was
+    allocated during the call. -/
 theorem c17_independent (doc : Doc) (files : Files) (n : Nat) (hb : doc.Below n) (hnd : doc.ids.Nodup) :
     (fixExternal doc true files n).input.ids.Nodup ∧
       ∀ i ∈ (fixExternal doc true files n).input.ids, i ∈ doc.ids ∨ n ≤ i := by
-  rw [fixExternal_true]; exact fixInPlace_nodup doc files n hb hnd
+  rw [fixExternal_input, Doc.unmerge_ids]
+  have := cellsOnly_independent doc.merge files n (Doc.merge_below hb) (by rw [Doc.merge_ids]; exact hnd)
+  rw [Doc.merge_ids] at this
+  exact this
 
-/-- the same, spelled out for the returned document: the cells are pairwise disjoint, and disjoint from every
-    top-level morphology / biophysical-properties element of the document (the sources of the copies) -/
+/-- the same, spelled out for the returned document: all cells (both lists) are pairwise disjoint, and disjoint from
+    every top-level morphology / biophysical-properties element of the document (the sources of the copies) -/
 theorem c17_copies_disjoint (doc : Doc) (files : Files) (n : Nat) (hb : doc.Below n) (hnd : doc.ids.Nodup)
     (doc' : Doc) (h : (fixExternal doc true files n).ret = .ok doc') :
-    doc'.cells.Pairwise (fun c1 c2 => ∀ i ∈ c1.ids, ∀ j ∈ c2.ids, i ≠ j) ∧
-    (∀ c ∈ doc'.cells, c.ids.Nodup) ∧
-    (∀ e ∈ doc'.morphs ++ doc'.bios, ∀ c ∈ doc'.cells, ∀ i ∈ e.ids, i ∉ c.ids) := by
-  have hi := (c17_independent doc files n hb hnd).1
-  rw [fixExternal_true] at h hi
-  rw [← fixInPlace_ret_ok h] at hi
-  have hcnt : ∀ i, count i (doc'.morphs.flatMap Elem.ids) + count i (doc'.bios.flatMap Elem.ids)
-      + count i (doc'.cells.flatMap Cell.ids) ≤ 1 := by
-    intro i
-    have := count_le_one_of_nodup hi i
-    simp only [Doc.ids, count_cons', count_append] at this
-    omega
-  have hcells : (doc'.cells.flatMap Cell.ids).Nodup := nodup_of_count (fun i => by have := hcnt i; omega)
-  have hc := (List.pairwise_flatMap (R := (· ≠ ·))).mp hcells
-  refine ⟨hc.2, hc.1, ?_⟩
-  intro e he c hc' i hie hic
-  have h3 : 0 < count i (doc'.cells.flatMap Cell.ids) :=
-    List.count_pos_iff.mpr (List.mem_flatMap.mpr ⟨c, hc', hic⟩)
-  simp only [mem_append] at he
-  rcases he with he | he
-  · have h1 : 0 < count i (doc'.morphs.flatMap Elem.ids) :=
-      List.count_pos_iff.mpr (List.mem_flatMap.mpr ⟨e, he, hie⟩)
-    have := hcnt i; omega
-  · have h1 : 0 < count i (doc'.bios.flatMap Elem.ids) :=
-      List.count_pos_iff.mpr (List.mem_flatMap.mpr ⟨e, he, hie⟩)
-    have := hcnt i; omega
+    (doc'.cells ++ doc'.cells2).Pairwise (fun c1 c2 => ∀ i ∈ c1.ids, ∀ j ∈ c2.ids, i ≠ j) ∧
+    (∀ c ∈ doc'.cells ++ doc'.cells2, c.ids.Nodup) ∧
+    (∀ e ∈ doc'.morphs ++ doc'.bios, ∀ c ∈ doc'.cells ++ doc'.cells2, ∀ i ∈ e.ids, i ∉ c.ids) := by
+  obtain ⟨dm, h1, h2, _, h4⟩ := merged_result h
+  have := cellsOnly_copies_disjoint doc.merge files n (Doc.merge_below hb) (by rw [Doc.merge_ids]; exact hnd) dm h1
+  rw [h4]
+  have hm : doc'.morphs = dm.morphs ∧ doc'.bios = dm.bios := by subst h2; exact ⟨rfl, rfl⟩
+  rw [hm.1, hm.2]
+  exact this
 
-/-- **No stray allocation.** Every object allocated by the substitution loop is part of the document afterwards:
-    the loop allocates the embedded copies and nothing else (in particular no copy of the document the
-    referenced element belongs to). -/
+/-- **No stray allocation.** Every object allocated by the substitution loop is part of the document afterwards. -/
 theorem c17_no_stray_allocation (doc : Doc) (files : Files) (n : Nat) :
     ∃ lo, n ≤ lo ∧ ∀ i, lo ≤ i → i < (fixExternal doc true files n).next →
       i ∈ (fixExternal doc true files n).input.ids := by
-  rw [fixExternal_true]
-  obtain ⟨lo, h1, _, h3⟩ := fixInPlace_count doc files n
-  refine ⟨lo, h1, fun i hlo hhi => ?_⟩
-  apply List.count_pos_iff.mp
-  rw [h3 i]
-  have : inR i lo (fixInPlace doc files n).next = 1 := by simp [inR, hlo, hhi]
-  omega
+  rw [fixExternal_input, fixExternal_next]
+  simp only [Doc.unmerge_ids]
+  exact cellsOnly_no_stray_allocation doc.merge files n
 
-/-- some cell refers to an id for which neither the document nor a directly included file has a definition -/
+/-- some cell — of `doc.cells` or `doc.cell2_ca_poolses` — refers to an id for which neither the document nor a
+    directly included file has a definition -/
 def DanglingId (doc : Doc) (files : Files) (a : String) : Prop :=
-  ∃ c ∈ doc.cells, (a ∈ c.m.refs ∧ ¬ ∃ sh, DefinesM doc files a sh) ∨ (a ∈ c.b.refs ∧ ¬ ∃ sh, DefinesB doc files a sh)
+  ∃ c ∈ doc.cells ++ doc.cells2,
+    (a ∈ c.m.refs ∧ ¬ ∃ sh, DefinesM doc files a sh) ∨ (a ∈ c.b.refs ∧ ¬ ∃ sh, DefinesB doc files a sh)
 
-theorem c17_outcome_inplace (doc : Doc) (files : Files) (n : Nat) (hb : doc.Below n)
-    (hr : ∀ inc ∈ doc.includes, (files inc.href).isSome) :
-    ((∃ a, DanglingId doc files a) → ∃ a, (fixInPlace doc files n).ret = .error (.keyError a) ∧ DanglingId doc files a) ∧
-    ((¬ ∃ a, DanglingId doc files a) → ∃ doc', (fixInPlace doc files n).ret = .ok doc') := by
-  cases ht : lookupTables doc files n with
-  | error e =>
-    obtain ⟨r, hr'⟩ := loadIncludes_ok files (referencedIds doc.cells) doc.includes [] [] n hr
-    rw [lookupTables_eq_error ht] at hr'; cases hr'
-  | ok r =>
-    obtain ⟨em, eb, n2⟩ := r
-    have ⟨_, s2, s3, c1, c2⟩ := lookupTables_spec ht hb
-    rw [fixInPlace_of_ok ht]
-    cases he : (fixCells em eb doc.cells n2).err with
-    | some e =>
-      obtain ⟨c, hc, a, rfl, hda⟩ := fixCells_err em eb doc.cells n2 e he
-      have hdang : DanglingId doc files a := by
-        refine ⟨c, hc, ?_⟩
-        rcases hda with ⟨h1, h2⟩ | ⟨h1, h2⟩
-        · left; refine ⟨h1, fun hd => ?_⟩
-          have := c1 a (mem_referencedIds hc (Or.inl h1)) hd
-          simp [h2] at this
-        · right; refine ⟨h1, fun hd => ?_⟩
-          have := c2 a (mem_referencedIds hc (Or.inr h1)) hd
-          simp [h2] at this
-      exact ⟨fun _ => ⟨a, by simp [retOf], hdang⟩, fun hn => absurd ⟨a, hdang⟩ hn⟩
-    | none =>
-      refine ⟨?_, fun _ => ⟨_, rfl⟩⟩
-      rintro ⟨a, c, hc, hd⟩
-      exfalso
-      have hall := (fixCells_ok_iff em eb doc.cells n2).mp he c hc
-      rcases hd with ⟨h1, h2⟩ | ⟨h1, h2⟩
-      · have := hall.1 a h1
-        cases hg : em.get? a with
-        | none => simp [hg] at this
-        | some e => exact h2 ⟨e.shape, (s2 a e hg).2.2⟩
-      · have := hall.2 a h1
-        cases hg : eb.get? a with
-        | none => simp [hg] at this
-        | some e => exact h2 ⟨e.shape, (s3 a e hg).2.2⟩
+theorem danglingId_iff (doc : Doc) (files : Files) (a : String) :
+    DanglingId doc files a ↔ DanglingIdCells doc.merge files a := Iff.rfl
 
-/-- **Where the `KeyError` is raised, and in what state** (bug-for-bug; the property only demands the exception).
-    If the cells before cell `c` resolve and `c` has the first reference without a definition — its morphology
-    reference, or its biophysics reference when its morphology is fine — then the exception carries exactly that
-    id, and with `overwrite=True` the document passed in is left half-converted: the cells before `c` are all
-    resolved, the cells after `c` are untouched. -/
+/-- **Where the `KeyError` is raised, and in what state** (bug-for-bug; the property only demands the exception): the
+    exception carries the first dangling id in the order `doc.cells`, then `doc.cell2_ca_poolses`, morphology before
+    biophysics; with `overwrite=True` the cells before it are resolved, the ones after it untouched. -/
 theorem c17_keyerror_at_first_dangling (doc : Doc) (files : Files) (n : Nat) (hb : doc.Below n)
     (hr : ∀ inc ∈ doc.includes, (files inc.href).isSome) (pre post : List Cell) (c : Cell)
-    (hcells : doc.cells = pre ++ c :: post)
+    (hcells : doc.cells ++ doc.cells2 = pre ++ c :: post)
     (hpre : ∀ x ∈ pre, (∀ a ∈ x.m.refs, ∃ sh, DefinesM doc files a sh) ∧ (∀ a ∈ x.b.refs, ∃ sh, DefinesB doc files a sh))
     (a : String)
     (hc : (a ∈ c.m.refs ∧ ¬ ∃ sh, DefinesM doc files a sh) ∨
       ((∀ a' ∈ c.m.refs, ∃ sh, DefinesM doc files a' sh) ∧ a ∈ c.b.refs ∧ ¬ ∃ sh, DefinesB doc files a sh)) :
     (fixExternal doc true files n).ret = .error (.keyError a) ∧
-    ∃ pre' c', (fixExternal doc true files n).input.cells = pre' ++ c' :: post ∧ pre'.length = pre.length ∧
-      (∀ x ∈ pre', x.m.refs = [] ∧ x.b.refs = []) := by
-  rw [fixExternal_true]
-  cases ht : lookupTables doc files n with
-  | error e =>
-    obtain ⟨r, hr'⟩ := loadIncludes_ok files (referencedIds doc.cells) doc.includes [] [] n hr
-    rw [lookupTables_eq_error ht] at hr'; cases hr'
-  | ok r =>
-    obtain ⟨em, eb, n2⟩ := r
-    have ⟨_, s2, s3, c1, c2⟩ := lookupTables_spec ht hb
-    rw [fixInPlace_of_ok ht, hcells]
-    have hmem : ∀ x, x ∈ pre ∨ x = c → x ∈ doc.cells := by
-      intro x hx; rw [hcells]; simp only [mem_append, mem_cons]
-      rcases hx with hx | hx
-      · exact Or.inl hx
-      · exact Or.inr (Or.inl hx)
-    have hpre_ok : (fixCells em eb pre n2).err = none := by
-      rw [fixCells_ok_iff]
-      intro x hx
-      exact ⟨fun a' ha' => c1 a' (mem_referencedIds (hmem x (Or.inl hx)) (Or.inl ha')) ((hpre x hx).1 a' ha'),
-        fun a' ha' => c2 a' (mem_referencedIds (hmem x (Or.inl hx)) (Or.inr ha')) ((hpre x hx).2 a' ha')⟩
-    have noneM : ∀ a', (¬ ∃ sh, DefinesM doc files a' sh) → em.get? a' = none := by
-      intro a' hn
-      cases hg : em.get? a' with
-      | none => rfl
-      | some e => exact absurd ⟨e.shape, (s2 a' e hg).2.2⟩ hn
-    have noneB : ∀ a', (¬ ∃ sh, DefinesB doc files a' sh) → eb.get? a' = none := by
-      intro a' hn
-      cases hg : eb.get? a' with
-      | none => rfl
-      | some e => exact absurd ⟨e.shape, (s3 a' e hg).2.2⟩ hn
-    have hcerr : (fixCell em eb c (fixCells em eb pre n2).next).err = some (.keyError a) := by
-      rcases hc with ⟨h1, h2⟩ | ⟨h0, h1, h2⟩
-      · have := fixSlot_missing em c.oid c.m (fixCells em eb pre n2).next a h1 (noneM a h2)
-        rw [fixCell_of_err this]
-      · have hm : (fixSlot em c.oid c.m (fixCells em eb pre n2).next).err = none := by
-          rw [fixSlot_ok_iff]
-          exact fun a' ha' => c1 a' (mem_referencedIds (hmem c (Or.inr rfl)) (Or.inl ha')) (h0 a' ha')
-        rw [fixCell_of_ok hm]
-        exact fixSlot_missing eb c.oid c.b _ a h1 (noneB a h2)
-    rw [fixCells_append_ok em eb pre (c :: post) n2 hpre_ok, fixCells_of_err hcerr]
-    refine ⟨by simp [retOf], (fixCells em eb pre n2).val, (fixCell em eb c (fixCells em eb pre n2).next).val, rfl,
-      fixCells_length em eb pre n2, fixCells_refs_nil em eb pre n2 hpre_ok⟩
+    ∃ pre' c', (fixExternal doc true files n).input.cells ++ (fixExternal doc true files n).input.cells2 = pre' ++ c' :: post ∧
+      pre'.length = pre.length ∧ (∀ x ∈ pre', x.m.refs = [] ∧ x.b.refs = []) := by
+  have ⟨e1, pre', c', e2, e3, e4⟩ :=
+    cellsOnly_keyerror_at_first_dangling doc.merge files n (Doc.merge_below hb) hr pre post c hcells hpre a hc
+  refine ⟨fixExternal_ret_error.mpr e1, pre', c', ?_, e3, e4⟩
+  rw [fixExternal_input]
+  have h2 : (fixExternalCells doc.merge true files n).input.cells2 = [] := by
+    rw [fixExternalCells_true]
+    cases ht : lookupTables doc.merge files n with
+    | error e => rw [fixInPlace_of_error ht]; rfl
+    | ok r => obtain ⟨em, eb, n2⟩ := r; rw [fixInPlace_of_ok ht]; rfl
+  rw [Doc.unmerge_all _ _ h2]
+  exact e2
+
+theorem retShape_unmerge (doc : Doc) (ow : Bool) (files : Files) (n : Nat) :
+    (fixExternal doc ow files n).retShape =
+      match (fixExternalCells doc.merge ow files n).retShape with
+      | .ok d => .ok (d.unmerge doc.cells.length)
+      | .error e => .error e := by
+  simp only [Result.retShape, fixExternal]
+  cases (fixExternalCells doc.merge ow files n).ret with
+  | error e => rfl
+  | ok d => simp [Doc.unmerge_shape]
 
 /-- **`overwrite=False`: the returned document equals the one `overwrite=True` produces** — the same exception, or
-    documents that are equal up to object identities (`Doc.shape`; this is the bindings' `__eq__`). -/
+    documents that are equal up to object identities in every member (`Doc.shape`; this is the bindings' `__eq__`). -/
 theorem c17_no_overwrite_equiv (doc : Doc) (files : Files) (n : Nat) :
     (fixExternal doc false files n).retShape = (fixExternal doc true files n).retShape := by
-  rw [fixExternal_true, fixExternal_false]
-  exact fixInPlace_congr (deepcopyDoc_spec doc n).2 files _ _
+  rw [retShape_unmerge, retShape_unmerge, cellsOnly_no_overwrite_equiv]
 
-/-- **A reference that cannot be resolved raises `KeyError`** (either mode), for an id that some cell refers to
-    and that is defined neither in the document nor in a directly included file — provided every included
-    file can be read. -/
+/-- **A reference that cannot be resolved raises `KeyError`** (either mode; a reference of a `Cell2CaPools` too) —
+    provided every included file can be read. -/
 theorem c17_dangling_keyerror (doc : Doc) (files : Files) (n : Nat) (overwrite : Bool) (hb : doc.Below n)
     (hr : ∀ inc ∈ doc.includes, (files inc.href).isSome) (hd : ∃ a, DanglingId doc files a) :
     ∃ a, (fixExternal doc overwrite files n).ret = .error (.keyError a) ∧ DanglingId doc files a := by
-  obtain ⟨a, h1, h2⟩ := (c17_outcome_inplace doc files n hb hr).1 hd
-  cases overwrite with
-  | true => exact ⟨a, by rw [fixExternal_true]; exact h1, h2⟩
-  | false =>
-    refine ⟨a, ?_, h2⟩
-    have he := c17_no_overwrite_equiv doc files n
-    rw [fixExternal_true] at he
-    simp only [Result.retShape, h1] at he
-    cases hret : (fixExternal doc false files n).ret with
-    | ok d => simp [hret] at he
-    | error e => simp only [hret, Except.error.injEq] at he; rw [he]
+  obtain ⟨a, h1, h2⟩ := cellsOnly_dangling_keyerror doc.merge files n overwrite (Doc.merge_below hb) hr hd
+  exact ⟨a, fixExternal_ret_error.mpr h1, h2⟩
 
 /-- and conversely: without a dangling reference (and with readable includes) the call succeeds, in either mode -/
 theorem c17_succeeds_iff_no_dangling (doc : Doc) (files : Files) (n : Nat) (overwrite : Bool) (hb : doc.Below n)
     (hr : ∀ inc ∈ doc.includes, (files inc.href).isSome) :
     (∃ doc', (fixExternal doc overwrite files n).ret = .ok doc') ↔ ¬ ∃ a, DanglingId doc files a := by
+  have := cellsOnly_succeeds_iff_no_dangling doc.merge files n overwrite (Doc.merge_below hb) hr
   constructor
-  · rintro ⟨doc', h⟩ hd
-    obtain ⟨a, h1, _⟩ := c17_dangling_keyerror doc files n overwrite hb hr hd
-    rw [h] at h1; cases h1
+  · rintro ⟨doc', h⟩
+    obtain ⟨dm, h1, _⟩ := fixExternal_ret_ok h
+    exact this.mp ⟨dm, h1⟩
   · intro hn
-    obtain ⟨doc', h⟩ := (c17_outcome_inplace doc files n hb hr).2 hn
-    cases overwrite with
-    | true => exact ⟨doc', by rw [fixExternal_true]; exact h⟩
-    | false =>
-      have he := c17_no_overwrite_equiv doc files n
-      rw [fixExternal_true] at he
-      simp only [Result.retShape, h] at he
-      cases hret : (fixExternal doc false files n).ret with
-      | ok d => exact ⟨d, rfl⟩
-      | error e => simp [hret] at he
+    obtain ⟨dm, h1⟩ := this.mpr hn
+    exact ⟨_, fixExternal_ret_of_ok h1⟩
 
 /-- an include that cannot be read stops the call (`sys.exit()` in the loader) before anything is modified -/
 theorem c17_unreadable_include (doc : Doc) (files : Files) (n : Nat)
@@ -348,90 +239,36 @@ theorem c17_unreadable_include (doc : Doc) (files : Files) (n : Nat)
     (∃ inc ∈ doc.includes, files inc.href = none ∧
       (fixExternal doc true files n).ret = .error (.includeUnreadable inc.href)) ∧
     (fixExternal doc true files n).input = doc ∧ (fixExternal doc true files n).writes = [] := by
-  rw [fixExternal_true]
-  cases ht : lookupTables doc files n with
-  | error e =>
-    obtain ⟨inc, hi, hf, rfl⟩ := loadIncludes_error files _ doc.includes [] [] n e (lookupTables_eq_error ht)
-    rw [fixInPlace_of_error ht]
-    exact ⟨⟨inc, hi, hf, rfl⟩, rfl, rfl⟩
-  | ok r =>
-    obtain ⟨em, eb, n2⟩ := r
-    obtain ⟨em0, eb0, hl, _, _⟩ := lookupTables_eq_ok ht
-    obtain ⟨inc, hi, hf⟩ := h
-    exfalso
-    have : ∀ (incs : List Inc) (em eb : Dict) (m : Nat) r, inc ∈ incs →
-        loadIncludes files (referencedIds doc.cells) incs em eb m ≠ .ok r := by
-      intro incs
-      induction incs with
-      | nil => intro _ _ _ _ hm; simp at hm
-      | cons x xs ih =>
-        intro em eb m r hm hok
-        cases hx : files x.href with
-        | none => rw [loadIncludes_cons_none hx] at hok; cases hok
-        | some fd =>
-          rw [loadIncludes_cons_some hx] at hok
-          simp only [mem_cons] at hm
-          rcases hm with rfl | hm
-          · rw [hf] at hx; cases hx
-          · exact ih _ _ _ r hm hok
-    exact this doc.includes [] [] n _ hi hl
+  have ⟨⟨inc, i1, i2, i3⟩, h2, h3⟩ := cellsOnly_unreadable_include doc.merge files n h
+  refine ⟨⟨inc, i1, i2, fixExternal_ret_error.mpr i3⟩, ?_, h3⟩
+  rw [fixExternal_input, h2, Doc.unmerge_merge]
 
-/-- **`overwrite=False` leaves the document passed in unchanged**: the model hands back `doc` itself as the
-    input's state after the call, which is justified by the frame fact that every attribute assignment of the
-    call went to an object allocated during the call — never to an object of the input. -/
+/-- **`overwrite=False` leaves the document passed in unchanged**: every attribute assignment of the call went to an
+    object allocated during the call — never to an object of the input. -/
 theorem c17_no_overwrite_frame (doc : Doc) (files : Files) (n : Nat) (hb : doc.Below n) :
     (fixExternal doc false files n).input = doc ∧
       ∀ w ∈ (fixExternal doc false files n).writes, n ≤ w ∧ w ∉ doc.ids := by
-  rw [fixExternal_false]
-  refine ⟨rfl, fun w hw => ?_⟩
-  simp only at hw
-  have ⟨sp, _⟩ := deepcopyDoc_spec doc n
-  have hwc : w ∈ (deepcopyDoc doc n).1.cells.map Cell.oid := by
-    cases ht : lookupTables (deepcopyDoc doc n).1 files (deepcopyDoc doc n).2 with
-    | error e => rw [fixInPlace_of_error ht] at hw; simp at hw
-    | ok r =>
-      obtain ⟨em, eb, n2⟩ := r
-      rw [fixInPlace_of_ok ht] at hw
-      exact fixCells_writes em eb _ n2 w hw
-  obtain ⟨c, hc, rfl⟩ := List.mem_map.mp hwc
-  have hmem : c.oid ∈ (deepcopyDoc doc n).1.ids := Doc.mem_ids_cells hc (by simp [Cell.ids])
-  have := (sp.mem hmem).1
-  exact ⟨this, fun hin => by have := hb _ hin; omega⟩
+  have ⟨h1, h2⟩ := cellsOnly_no_overwrite_frame doc.merge files n (Doc.merge_below hb)
+  refine ⟨by rw [fixExternal_input, h1, Doc.unmerge_merge], ?_⟩
+  rw [Doc.merge_ids] at h2
+  exact h2
 
-/-- with `overwrite=True` the assignments go to cells of the document passed in, and to nothing else -/
+/-- with `overwrite=True` the assignments go to cells of the document passed in (either list), and to nothing else -/
 theorem c17_overwrite_frame (doc : Doc) (files : Files) (n : Nat) :
-    ∀ w ∈ (fixExternal doc true files n).writes, w ∈ doc.cells.map Cell.oid := by
-  rw [fixExternal_true]
-  intro w hw
-  cases ht : lookupTables doc files n with
-  | error e => rw [fixInPlace_of_error ht] at hw; simp at hw
-  | ok r =>
-    obtain ⟨em, eb, n2⟩ := r
-    rw [fixInPlace_of_ok ht] at hw
-    exact fixCells_writes em eb _ n2 w hw
+    ∀ w ∈ (fixExternal doc true files n).writes, w ∈ (doc.cells ++ doc.cells2).map Cell.oid :=
+  cellsOnly_overwrite_frame doc.merge files n
 
-/-- the document returned with `overwrite=False` consists of new objects only and is a tree: it shares nothing
-    with the document passed in -/
+/-- the document returned with `overwrite=False` consists of new objects only and is a tree -/
 theorem c17_no_overwrite_fresh (doc : Doc) (files : Files) (n : Nat) (doc' : Doc)
     (h : (fixExternal doc false files n).ret = .ok doc') :
     (∀ i ∈ doc'.ids, n ≤ i) ∧ doc'.ids.Nodup := by
-  rw [fixExternal_false] at h
-  simp only at h
-  have ⟨sp, _⟩ := deepcopyDoc_spec doc n
-  have hb : (deepcopyDoc doc n).1.Below (deepcopyDoc doc n).2 := fun i hi => (sp.mem hi).2
-  have hnd : (deepcopyDoc doc n).1.ids.Nodup :=
-    nodup_of_count (fun i => by rw [sp.2 i]; exact inR_le_one _ _ _)
-  have ⟨r1, r2⟩ := fixInPlace_nodup _ files _ hb hnd
-  rw [← fixInPlace_ret_ok h] at r1 r2
-  refine ⟨fun i hi => ?_, r1⟩
-  rcases r2 i hi with hold | hnew
-  · exact (sp.mem hold).1
-  · have := sp.1; omega
+  obtain ⟨dm, h1, h2⟩ := fixExternal_ret_ok h
+  have := cellsOnly_no_overwrite_fresh doc.merge files n dm h1
+  rw [h2, Doc.unmerge_ids]
+  exact this
 
-/-! ### `cell2_ca_poolses` — open finding `C17:cell2capools-not-resolved`
-
-`Cell2CaPools` is a subclass of `Cell` with the same `morphology` / `biophysicalProperties` attributes, but its
-instances live in `doc.cell2_ca_poolses`, which the function never visits. -/
+/-! ### `cell2_ca_poolses` — finding `C17:cell2capools-not-resolved`, repaired by
+`fixes/C17-cell2capools-resolved.patch` -/
 
 /-- FULL statement: after a successful call no cell of *either* list is left with a reference to resolve -/
 def c17_every_cell_full : Prop :=
@@ -439,93 +276,46 @@ def c17_every_cell_full : Prop :=
     (fixExternal doc true files n).ret = .ok doc' →
     ∀ c ∈ doc'.cells ++ doc'.cells2, c.m.refs = [] ∧ c.b.refs = []
 
-/-- true for documents whose `cell2_ca_poolses` hold no references (in particular: none at all) -/
-theorem c17_every_cell_partial (doc : Doc) (files : Files) (n : Nat) (doc' : Doc)
-    (h2 : ∀ c ∈ doc.cells2, c.m.refs = [] ∧ c.b.refs = [])
-    (h : (fixExternal doc true files n).ret = .ok doc') :
-    ∀ c ∈ doc'.cells ++ doc'.cells2, c.m.refs = [] ∧ c.b.refs = [] := by
-  have hrest := c17_rest_untouched doc files n doc' h
-  rw [fixExternal_true] at h
-  cases ht : lookupTables doc files n with
-  | error e => rw [fixInPlace_of_error ht] at h; cases h
-  | ok r =>
-    obtain ⟨em, eb, n2⟩ := r
-    rw [fixInPlace_of_ok ht] at h
-    cases he : (fixCells em eb doc.cells n2).err with
-    | some e => simp [he, retOf] at h
-    | none =>
-      simp only [he, retOf, Except.ok.injEq] at h
-      intro c hc
-      simp only [mem_append] at hc
-      rcases hc with hc | hc
-      · subst h
-        exact fixCells_refs_nil em eb doc.cells n2 he c hc
-      · rw [hrest.2.2.2.2.2.1] at hc; exact h2 c hc
+/-- the full statement holds of the repaired function -/
+theorem c17_every_cell : c17_every_cell_full := by
+  intro doc files n doc' h
+  obtain ⟨dm, h1, _, h3, h4⟩ := merged_result h
+  have := cellsOnly_every_cell_partial doc.merge files n dm (by simp [Doc.merge]) h1
+  rw [h4]
+  intro c hc
+  exact this c (by simp [h3, hc])
 
-def witnessMorph : Elem := ⟨"m", .mk 1 none "Morphology m" []⟩
-def witnessCell2 : Cell := ⟨2, none, "Cell2CaPools c", ⟨some "m", none⟩, ⟨none, none⟩⟩
-def witnessDoc : Doc := ⟨0, "doc", [], [witnessMorph], [], [], [witnessCell2], []⟩
-
-/-- the full statement fails today: a `Cell2CaPools` referring to a morphology defined in the same document
-    comes back unresolved, and no exception is raised -/
-theorem c17_every_cell_witness : ¬ c17_every_cell_full := by
-  intro hfull
-  have := hfull witnessDoc (fun _ => none) 3 witnessDoc rfl witnessCell2 (by simp [witnessDoc])
-  simp [witnessCell2, Slot.refs] at this
+/-- … and did not hold of the function that visited `doc.cells` only (the shape before the repair) -/
+theorem c17_every_cell_unrepaired_witness : ¬ cellsOnly_every_cell_full := cellsOnly_every_cell_witness
 
 /-! ### the hypotheses are satisfiable, the conclusions are not vacuous -/
 
-/-- two cells share one morphology reference, a third embeds its own and also names a reference; one included
-    file defines the biophysics -/
-def exDoc : Doc :=
-  ⟨0, "doc", [⟨1, none, "inc.nml"⟩],
-    [⟨"m1", .mk 2 none "Morphology m1" [.mk 3 none "segments" [.mk 4 none "Segment 0" []]]⟩], [],
-    [⟨5, none, "c0", ⟨some "m1", none⟩, ⟨some "b1", none⟩⟩,
-     ⟨6, none, "c1", ⟨some "m1", none⟩, ⟨none, none⟩⟩,
-     ⟨7, none, "c2", ⟨some "m1", some ⟨"own", .mk 8 none "Morphology own" []⟩⟩, ⟨none, none⟩⟩],
-    [], []⟩
+/-- `exDoc` of `Proofs/FixExternalCells.lean` (two cells share one morphology reference, a third embeds its own; an
+    included file defines the biophysics) plus a `Cell2CaPools` that refers to both -/
+def exDoc2 : Doc := { exDoc with cells2 := [⟨20, none, "Cell2CaPools cc", ⟨some "m1", none⟩, ⟨some "b1", none⟩⟩] }
 
-def exFiles : Files := fun h =>
-  if h = "inc.nml" then some ⟨[⟨"m1", .mk 0 (some 0) "Morphology m1 (from file)" []⟩], [⟨"b1", .mk 0 (some 0) "Biophys b1" []⟩]⟩
-  else none
-
-example : exDoc.Below 9 := by unfold Doc.Below; decide
-example : exDoc.ids.Nodup := by decide
-example : ∀ inc ∈ exDoc.includes, (exFiles inc.href).isSome := by decide
-example : ∃ doc', (fixExternal exDoc true exFiles 9).ret = .ok doc' := ⟨_, rfl⟩
-example : ∃ doc', (fixExternal exDoc false exFiles 9).ret = .ok doc' := ⟨_, rfl⟩
-/-- the two copies of `m1` occupy different identities, both new; the biophysics copy points back to its cell -/
-example : ((fixExternal exDoc true exFiles 9).input.cells.map Cell.ids) =
-    [[5, 12, 13, 14, 15], [6, 16, 17, 18], [7, 8]] := by decide
-example : (fixExternal exDoc true exFiles 9).writes = [5, 5, 6] := by decide
-example : (fixExternal exDoc false exFiles 9).writes.all (· ≥ 9) = true := by decide
-
-/-- a dangling reference in the second cell: `KeyError`, and with `overwrite=True` the first cell is already
-    modified while the third is not (bug-for-bug; the property does not speak about this state) -/
-def exDangling : Doc :=
-  { exDoc with cells := [⟨5, none, "c0", ⟨some "m1", none⟩, ⟨none, none⟩⟩,
-                          ⟨6, none, "c1", ⟨some "nope", none⟩, ⟨none, none⟩⟩,
-                          ⟨7, none, "c2", ⟨some "m1", none⟩, ⟨none, none⟩⟩] }
-
-example : DanglingId exDangling exFiles "nope" := by
-  refine ⟨⟨6, none, "c1", ⟨some "nope", none⟩, ⟨none, none⟩⟩, by simp [exDangling], Or.inl ⟨by simp [Slot.refs], ?_⟩⟩
+example : exDoc2.Below 21 := by unfold Doc.Below; decide
+example : exDoc2.ids.Nodup := by decide
+example : ∀ inc ∈ exDoc2.includes, (exFiles inc.href).isSome := by decide
+example : ∃ doc', (fixExternal exDoc2 true exFiles 21).ret = .ok doc' := ⟨_, rfl⟩
+example : ∃ doc', (fixExternal exDoc2 false exFiles 21).ret = .ok doc' := ⟨_, rfl⟩
+/-- the `Cell2CaPools` is resolved as well, with copies of its own -/
+example : (fixExternal exDoc2 true exFiles 21).input.cells2.map (fun c => (c.m.attr, c.b.attr, c.ids.length)) =
+    [(none, none, 5)] := by decide
+example : (fixExternal exDoc2 true exFiles 21).writes = [5, 5, 6, 20, 20] := by decide
+example : (fixExternal exDoc2 false exFiles 21).writes.all (· ≥ 21) = true := by decide
+example : (fixExternal exDoc2 false exFiles 21).input = exDoc2 :=
+  (c17_no_overwrite_frame exDoc2 exFiles 21 (by unfold Doc.Below; decide)).1
+/-- a dangling reference in a `Cell2CaPools` raises `KeyError` -/
+example : (fixExternal { exDoc with cells2 := [⟨20, none, "cc", ⟨some "nope", none⟩, ⟨none, none⟩⟩] } true exFiles 21).ret =
+    .error (.keyError "nope") := rfl
+example : DanglingId { exDoc with cells2 := [⟨20, none, "cc", ⟨some "nope", none⟩, ⟨none, none⟩⟩] } exFiles "nope" := by
+  refine ⟨⟨20, none, "cc", ⟨some "nope", none⟩, ⟨none, none⟩⟩, by simp, Or.inl ⟨by simp [Slot.refs], ?_⟩⟩
   rintro ⟨sh, hd⟩
   rcases hd with ⟨e, he, hid, _⟩ | ⟨inc, hinc, fd, hf, e, he, hid, _⟩
-  · simp [exDangling, exDoc] at he; subst he; simp at hid
-  · simp [exDangling, exDoc] at hinc; subst hinc
+  · simp [exDoc] at he; subst he; simp at hid
+  · simp [exDoc] at hinc; subst hinc
     simp [exFiles] at hf; subst hf
     simp at he; subst he; simp at hid
-example : exDangling.cells = [⟨5, none, "c0", ⟨some "m1", none⟩, ⟨none, none⟩⟩] ++
-    ⟨6, none, "c1", ⟨some "nope", none⟩, ⟨none, none⟩⟩ :: [⟨7, none, "c2", ⟨some "m1", none⟩, ⟨none, none⟩⟩] := rfl
-example : ∃ sh, DefinesM exDangling exFiles "m1" sh :=
-  ⟨_, Or.inl ⟨⟨"m1", .mk 2 none "Morphology m1" [.mk 3 none "segments" [.mk 4 none "Segment 0" []]]⟩,
-    by simp [exDangling, exDoc], rfl, rfl⟩⟩
-example : (fixExternal exDangling true exFiles 9).ret = .error (.keyError "nope") := rfl
-example : (fixExternal exDangling true exFiles 9).input.cells.map (fun c => (c.m.attr, c.m.elem.isSome)) =
-    [(none, true), (some "nope", false), (some "m1", false)] := by decide
-example : (fixExternal exDangling false exFiles 9).ret = .error (.keyError "nope") := rfl
-example : ∃ inc ∈ exDoc.includes, (fun _ => none : Files) inc.href = none :=
-  ⟨⟨1, none, "inc.nml"⟩, by simp [exDoc], rfl⟩
-example : ∀ c ∈ exDoc.cells2, c.m.refs = [] ∧ c.b.refs = [] := by simp [exDoc]
 
 end NmlVerif.FixExternal
